@@ -22,3 +22,26 @@ let () =
       else if List.length (bytes_of_hex pr) <> rl || int_of_string blen <> 2 + rl then Viol "close body built after an earlier one was modified: wrong reason / size"
       else Pass true
     | _ -> Diff "malformed line")
+
+let () =
+  (* H09W: the HTTP upgraders behind a ResponseWriter that reaches its Hijacker through Unwrap(); judged as H09 *)
+  register "H09W" (fun i o -> (Hashtbl.find handlers "H09") i o);
+  (* DBUF: DebugUpgrader over a conn that refuses its k-th write: same outcome as the plain Upgrader, OnResponse called
+     once with exactly the bytes the conn accepted *)
+  register "DBUF" (fun i o -> match i, o with
+    | [_; _; _], [plain; debug; accepted; got; n] ->
+      if debug = "panic" then Viol "DebugUpgrader panicked over a failing connection"
+      else if plain <> debug then Viol "DebugUpgrader changes the outcome over a connection that refuses a write"
+      else if n <> "1" then Viol "OnResponse not called exactly once"
+      else if got <> accepted then Viol "OnResponse reports response bytes the connection did not accept (or misses some it did)"
+      else Pass true
+    | _ -> Diff "malformed line");
+  (* C19D: sessions using the default net dialer one after the other *)
+  register "C19D" (fun i o -> match o with
+    | ["0"; _; _; _; _] -> Pass false
+    | ["1"; _a; b; alone; c] ->
+      if alone <> "ok" then Pass false   (* no usable loopback: the case says nothing *)
+      else if b <> "ok" then Viol "a session without Timeout failed after another session had used the default net dialer with a tiny Timeout (it succeeds alone)"
+      else if c <> "ok" then Viol "a session with a generous Timeout failed after another session had used the default net dialer with a tiny one"
+      else Pass true
+    | _ -> Diff "malformed line")
